@@ -10,6 +10,31 @@ import types
 REPO = os.environ.get("PYVC_REPO", "/repo")
 
 
+def _ordered_walk(node):
+    """pre-order, source order"""
+    yield node
+    for ch in ast.iter_child_nodes(node):
+        yield from _ordered_walk(ch)
+
+
+def _annotate_sites(fnode):
+    """position-independent names for obligations: the k-th call of `callee` / the k-th statement inside this function
+    (adding or removing lines around or inside the function does not rename anything unless it adds such a call / statement
+    before it)"""
+    counts = {}
+    nstmt = 0
+    for n in _ordered_walk(fnode):
+        if isinstance(n, ast.Call):
+            f = n.func
+            key = f.attr if isinstance(f, ast.Attribute) else f.id if isinstance(f, ast.Name) else "call"
+            k = counts.get(key, 0)
+            counts[key] = k + 1
+            n._site = "%s#%d" % (key, k)
+        elif isinstance(n, ast.stmt) and n is not fnode:
+            n._sid = "s%d" % nstmt
+            nstmt += 1
+
+
 class FuncInfo:
     def __init__(self, qual, node, module, cls, path):
         self.qual = qual
@@ -25,6 +50,7 @@ class FuncInfo:
         self.body = body
         self.sha = hashlib.sha256("\n".join(ast.unparse(s) for s in body).encode()).hexdigest()[:16]
         self.is_generator = any(isinstance(n, (ast.Yield, ast.YieldFrom)) for n in ast.walk(node))
+        _annotate_sites(node)
 
 
 class Repo:
